@@ -85,8 +85,9 @@ def run(chk):
     # the public validators/parsers on pump families of a few dozen and of several hundred characters
     timing = []
     fam = [("a", "a", "!"), ("1", "1", "x"), ("a", "-a", "!"), ("1", ".1", "!"), ("a", "a-", "A"), ("", "1", ".x"),
-           ("x-", "1.", "-"), ("a:", "b:", "!"), ("RC-", "1", "."), ("", "-", "."), ("", "a/", "-1-1."), ("", "9", ".n.")]
-    sizes = [24, 48] if chk.tier == "quick" else [24, 48, 200, 800]
+           ("x-", "1.", "-"), ("a:", "b:", "!"), ("RC-", "1", "."), ("", "-", "."), ("", "a/", "-1-1."), ("", "9", ".n."),
+           ("1e", "9", ""), ("", "1,", "x"), ("(x+x+)+", "x", "y")]
+    sizes = [8, 24, 48] if chk.tier == "quick" else [6, 8, 9, 24, 48, 200, 800]
     tcases = []
     for fn in rx.FUNCTIONS:
         for pre, pump, suf in fam:
